@@ -223,6 +223,8 @@ def mpc(env):
     env.holds('iterations warm-start from the previous inputs', calls[0][2] == 'u0' and calls[1][2] == 'u1')
     env.holds('the final solve uses the best (lowest-cost) inputs seen', calls[-1][2] == 'u2')
     env.holds('the result is that final LQR solve', out[0] == f'x{len(calls)}')
+    env.holds('... its states, its inputs and ITS cost (the cost of the trajectory returned, not of an earlier iterate)',
+              len(out) == 3 and out[0] == f'x{len(calls)}' and out[1] == f'u{len(calls)}' and len(calls) == 4 and bool(out[2] == 9))
 
 
 @bounded('C14.kkt_comparison', functions=[f'{LQRM}:LQR.forward', 'pypose.module.mpc:MPC.forward'])
